@@ -75,6 +75,12 @@ def config(name):
         return "D", dict(n_landmarks=0, gp_type="full_nystroem", rank=0.9), ["landmarks", "Lp"], True
     if name == "D-full-adam":
         return "D", dict(n_landmarks=0, optimizer="adam", n_iter=4), ["landmarks"], True
+    if name == "D-fixed-over":   # more landmarks requested than cells: the cells become the landmarks (fixed defect 4eb34bd)
+        return "D", dict(gp_type="fixed", n_landmarks=5000), [], False
+    if name == "T-fixed-over":
+        return "T", dict(gp_type="fixed", n_landmarks=5000, ls_time=1.0, optimizer="adam", n_iter=4), [], False
+    if name == "M-fixed-over":
+        return "M", dict(gp_type="fixed", n_landmarks=5000, optimizer="adam", n_iter=3), [], False
     if name == "T-full":
         return "T", dict(n_landmarks=0, ls_time=1.0, optimizer="adam", n_iter=4), ["landmarks"], True
     if name == "T-sparse":
@@ -680,6 +686,12 @@ def run(ctx, res):
         run_case(ctx, res, {"op": "stale", "config": c_, "variant": v_})
     for c_ in ("T-full", "T-sparse"):
         run_case(ctx, res, {"op": "times", "config": c_})
+    # repeated staged calls on a fixed-type model whose landmark request exceeds the number of cells
+    for c_, ops in (("D-fixed-over", ["FI J T", "FI N T"]), ("D-fixed-over", ["FP J F", "PR N", "RU", "PC T"]),
+                    ("T-fixed-over", ["FI J T", "FP N F"]), ("M-fixed-over", ["FI J T", "FI N T"])):
+        run_case(ctx, res, {"op": "history", "config": c_, "ops": ops})
+    run_case(ctx, res, {"op": "subset", "config": "D-fixed-over", "subset": ["landmarks"]})
+    run_case(ctx, res, {"op": "subset", "config": "D-fixed-over", "subset": ["landmarks", "L", "Lp"]})
     glue_plan = [("D", {}), ("D", {"landmarks": True}), ("D", {"landmarks": True, "gp_type": "sparse_nystroem", "rank": 3}),
                  ("D", {"gp_type": "full_nystroem", "rank": 0.9, "ls_factor": 2.0}), ("T", {}), ("T", {"normalize": True}),
                  ("T", {"normalize": True, "landmarks": True}), ("T", {"normalize": [4.0, 9.0, 6.0]}), ("T", {"landmarks": True, "gp_type": "fixed"}), ("M", {})]
